@@ -140,6 +140,8 @@ class C09(core.PropBase):
                 else:
                     vals[p["name"]] = rng.choice(["many", "2.5", "", "7"])
             case = {"doc": doc, "vals": vals, "envs": envs}
+            if i % 25 == 7:
+                case["opt"] = True
             if i % 6 == 2:
                 # the usual flow: preprocess_job_parameters() first, create_job() with the dict it returned — which the caller
                 # has touched in between (values replaced in place).  create_job checks what it is given, whatever its history.
@@ -163,6 +165,19 @@ class C09(core.PropBase):
 
     def collect(self, case):
         """-> ("ok", [(kind, type, value)...]) | ("skip", reason)"""
+        if case.get("opt") and not sys.flags.optimize:
+            # the same question put to an interpreter that runs with assertions stripped (python -O): what a Job holds does not
+            # depend on how the interpreter was started
+            import json
+            import os
+            import subprocess
+            plain = {k: v for k, v in case.items() if not k.startswith("_")}
+            p = subprocess.run([sys.executable, "-O", "-W", "ignore", __file__, "--collect"], input=json.dumps(plain), capture_output=True, text=True,
+                               env=dict(os.environ), timeout=300)
+            if p.returncode != 0:
+                raise RuntimeError("python -O child failed: " + p.stderr[-300:])
+            st, vals = json.loads(p.stdout.strip().splitlines()[-1])
+            return st, vals
         try:
             jt = decode_job_template(template=G.deep(case["doc"]))
             for e in case.get("envs") or []:
@@ -288,4 +303,12 @@ class C09(core.PropBase):
 PROP = C09()
 
 if __name__ == "__main__":
+    if sys.argv[1:2] == ["--collect"]:
+        import json
+        assert sys.flags.optimize, "child must run under -O"
+        try:
+            print(json.dumps(list(PROP.collect(json.loads(sys.stdin.read())))))
+        except BaseException as e:  # noqa: BLE001
+            print(json.dumps(["raise", type(e).__name__]))
+        sys.exit(0)
     sys.exit(core.main(PROP, sys.argv[1:]))
